@@ -3,6 +3,7 @@
 mod alloc;
 mod conn;
 mod framing;
+mod pk;
 mod props;
 mod rng;
 mod tables;
@@ -67,6 +68,13 @@ fn main() {
             let nums: Vec<u64> = args[2..].iter().filter_map(|s| s.parse().ok()).collect();
             lines.push(props::replay_list(&nums));
         }
+        "pk" => {
+            stats_json = pk::generate(seed, n, &mut lines);
+        }
+        "pk-replay" => {
+            let nums: Vec<u64> = args[2..].iter().filter_map(|s| s.parse().ok()).collect();
+            lines.push(pk::replay(&nums));
+        }
         "conn-matrix" => {
             let mut st = conn::c16::CaseStats::new();
             let (cells, unreachable) = conn::c16::gen_matrix(&mut lines, &mut st);
@@ -81,6 +89,7 @@ fn main() {
             let dir = arg_val(&args, "--dir").unwrap_or_else(|| "/verif/coq/theories/Generated".to_string());
             tables::write_sendable_v(&format!("{}/ObservedSendable.v", dir));
             props::write_props_v(&format!("{}/ObservedProps.v", dir));
+            props::write_codes_v(&format!("{}/ObservedCodes.v", dir));
         }
         "conn-replay" => {
             lines.push(conn::replay(&args[2..]));
